@@ -642,6 +642,11 @@ def _gen_seq_ops_spec(rng, version, b, d, nums, rv, kind):
                 elif m // 100000 == 0:
                     o.append(m)
             return o
+        # a third of the programs over a sequence that holds a character element: wholly inside a 203YYY
+        # definition such a sequence cannot be turned into a template (the companion that fails INSIDE it)
+        with_str = [x for x in seqs if any(e in b and b[e][1] == bufrgen.STRING_UNIT for e in elems(x))]
+        if with_str and rng.random() < 0.35:
+            sid = rng.choice(with_str)
         own = [e for e in elems(sid) if e in b and b[e][1] != bufrgen.STRING_UNIT and 'able' not in b[e][1].lower()
                and 2 <= b[e][4] <= 32]
         op = rng.choice([201, 202, 207, 203, 203]) if own else rng.choice([201, 202, 207])
